@@ -368,7 +368,8 @@ def diag_definite(prog):
 SEEDED = ("KMeansL1L2[L1]", "KMeansL1L2[L2]", "KMeansL1L2[L1,init-array]",
           "PermutationReciprocalTransformer[closest=False]", "PermutationReciprocalTransformer[closest=True]",
           "PermutationReciprocalTransformer[random_state=0]", "PiecewiseClassifier",
-          "PiecewiseClassifier[random_state=0]")
+          "PiecewiseClassifier[random_state=0]", "PiecewiseClassifier[random_state=numpy.int64]",
+          "PermutationReciprocalTransformer[random_state=numpy.int32]")
 
 
 OPT_OUT_PARAMS = ("copy_x", "copy_X", "copy", "verbose")
